@@ -1,6 +1,9 @@
 """KUBEAPI - not a property of crossplane: binds the trusted environment double harness/simapi to its TLA+ contract
-spec/KubeAPI.tla (random operation sequences against the real simapi, every step judged by MonKubeAPI.tla).
-./check KUBEAPI ; a failure means the API model every other check relies on no longer satisfies its contract."""
+spec/KubeAPI.tla.  (M)+(G) spec/MCKubeAPI.tla is the contract as an executable state machine (TLC checks that it is a
+model of the step relation and emits one request sequence per reachable (state, request) pair); the sequences - and
+seeded random ones over two objects - are run against the real simapi and every recorded step is judged by
+MonKubeAPI.tla.  ./check KUBEAPI ; a failure means the API model every other check relies on no longer satisfies its
+contract."""
 import os
 
 import vlib
@@ -10,16 +13,36 @@ PID = "KUBEAPI"
 
 def run(ctx):
     binp = ctx.go_build("./drivers/kubeapi")
+    mc = ctx.model_check("MCKubeAPI", "MCKubeAPI_quick.cfg" if ctx.quick else "MCKubeAPI_thorough.cfg", workers=8, timeout=900)
+    scs = [{"id": "%s-%07d" % (PID, i), "hist": h} for i, h in ctx.sample_lines(mc["emitted_file"], 9000 if ctx.quick else 120000, mc["emitted"])]
+    strace = os.path.join(ctx.work, "strace.ndjson")
+    ctx.run([binp, "-scenarios", ctx.write_scenarios(scs), "-trace", strace, "-summary", os.path.join(ctx.work, "ssummary.json")])
+    viols, n1 = ctx.monitor("MonKubeAPI", strace, heap="8g")
+    by_id = {s["id"]: s for s in scs}
+    for formula, line, scid in viols:
+        ctx.violation(formula, scid, ctx.replay_file(by_id.get(scid, {"id": scid})), "trace line %d" % line, fingerprint=formula)
     trace = os.path.join(ctx.work, "trace.ndjson")
     summ = os.path.join(ctx.work, "summary.json")
-    ctx.run([binp, "-trace", trace, "-summary", summ, "-seed", str(ctx.seed), "-runs", "400" if ctx.quick else "6000"])
-    viols, n = ctx.monitor("MonKubeAPI", trace, heap="8g")
+    ctx.run([binp, "-trace", trace, "-summary", summ, "-seed", str(ctx.seed), "-runs", "300" if ctx.quick else "6000"])
+    viols, n2 = ctx.monitor("MonKubeAPI", trace, heap="8g")
     for formula, line, scid in viols:
         ctx.violation(formula, scid, trace, "trace line %d" % line, fingerprint=formula)
     ctx.level = "other"
-    ctx.cov.update(dict(explanation="simapi conformance to spec/KubeAPI.tla: %d random calls, every step satisfies the step relation" % n,
-                        evaluations=n, distinct_nontrivial=n, samples=[{"trace": trace}], events=n))
+    ctx.cov.update(dict(explanation="simapi conformance to spec/KubeAPI.tla: %d model-generated request sequences (%d calls) + %d random calls, "
+                                    "every step satisfies the step relation" % (len(scs), n1, n2),
+                        states=mc["states"], transitions=mc["transitions"], traces_validated_against_impl=len(scs),
+                        evaluations=n1 + n2, distinct_nontrivial=n1 + n2, samples=scs[:1], events=n1 + n2))
 
 
 def replay(ctx, path):
-    run(ctx)
+    import json
+    binp = ctx.go_build("./drivers/kubeapi")
+    with open(path) as f:
+        sc = json.load(f)
+    strace = os.path.join(ctx.work, "strace.ndjson")
+    ctx.run([binp, "-scenarios", ctx.write_scenarios([sc]), "-trace", strace, "-summary", os.path.join(ctx.work, "ssummary.json")])
+    viols, n = ctx.monitor("MonKubeAPI", strace, heap="4g")
+    for formula, line, scid in viols:
+        ctx.violation(formula, scid, path, "trace line %d" % line, fingerprint=formula)
+    ctx.level = "other"
+    ctx.cov.update(dict(explanation="replay", evaluations=n, distinct_nontrivial=n, samples=[sc], events=n))
